@@ -14,7 +14,7 @@ RULE = ("seeded models with random cost rates (incl. 0), absence patterns and ru
 ASSUMPTIONS = ["unit_time = 1", "models <= 8 tasks"]
 LEVEL_TEXT = "Seeded exploration; the full cost hierarchy is recomputed from the state logs for every step of every run."
 LEVEL_NOTE = "Trusted: the recomputation in the oracle; sampling evidence only."
-PROBES = ["history_runs", "edit_runs", "backward_runs", "charged_worker_step", "charged_facility_step", "zero_cost_working_resource", "absence_step_zero_cost",
+PROBES = ["remove_runs", "reloaded_logs_checked", "history_reload_in_place", "history_runs", "edit_runs", "backward_runs", "charged_worker_step", "charged_facility_step", "zero_cost_working_resource", "absence_step_zero_cost",
           "individually_absent_holder_not_charged"]
 
 
@@ -34,7 +34,7 @@ def gen(rng, tier):
     if rng.random() < 0.15:
         spec["cfg"]["unit_time"] = rng.choice([2, 3])  # the clock advances by 2 or 3 per step; the accounting is per step
     if rng.random() < 0.3:
-        spec["history"] = {"k": rng.randint(0, 8), "state": rng.random() < 0.5, "log": rng.random() < 0.5}
+        spec["history"] = {"k": rng.randint(0, 8), "state": rng.random() < 0.5, "log": rng.random() < 0.5, "reload": rng.random() < 0.3}
     elif rng.random() < 0.15:
         spec["backward"] = {"due": rng.random() < 0.3, "reverse": rng.random() < 0.7}
     elif rng.random() < 0.2:
@@ -44,6 +44,10 @@ def gen(rng, tier):
         if rng.random() < 0.4:
             ed.append(ed[0])  # a duplicate
         spec["edit"] = ed
+    elif rng.random() < 0.2 and spec["cfg"].get("absence"):
+        spec["remove"] = True  # the absence steps are deleted from the logs afterwards: every level must still add up
+    if rng.random() < 0.12:
+        spec["reload_after"] = True  # ... and the accounting is a property of the logs, also of logs read back from a file
     return spec
 
 
@@ -55,6 +59,15 @@ def extra_candidates(spec):
     if spec.get("backward") is not None:
         c = dict(spec)
         c.pop("backward")
+        yield c
+    for k_ in ("remove", "reload_after"):
+        if spec.get(k_):
+            c = dict(spec)
+            c.pop(k_)
+            yield c
+    if (spec.get("history") or {}).get("reload"):
+        c = dict(spec)
+        c["history"] = dict(spec["history"], reload=False)
         yield c
     if spec.get("edit"):
         c = dict(spec)
@@ -173,6 +186,15 @@ def run(spec):
         res.count("history_runs")
         res.count("history_flags_state%d_log%d" % (int(hist["state"]), int(hist["log"])))
         steps_t = None
+        if tr.out.ok and hist.get("reload"):
+            # the paused project is written to a file and read back into the same object
+            from .. import director as D_
+            from .. import seams
+            p_ = tr.project
+            if D_.call(lambda: p_.write_simple_json("mem:c07.json")).ok and D_.call(lambda: p_.read_simple_json("mem:c07.json")).ok:
+                seams.attach(p_)
+                seams.rerank(p_, spec.get("ranks") or {})
+                res.count("history_reload_in_place")
         if tr.out.ok:
             cfg2 = dict(spec["cfg"])
             cfg2["init_state"], cfg2["init_log"] = bool(hist["state"]), bool(hist["log"])
@@ -186,6 +208,18 @@ def run(spec):
         o = D_.call(lambda: tr.project.insert_absence_time_list(list(spec["edit"])))
         steps_t = None
         tr.absence = set()  # after the edit, log indices no longer equal simulation times: absence steps are zero-cost anyway
+    if spec.get("remove") and tr.out.ok and not spec.get("edit"):
+        from .. import director as D_
+        res.count("remove_runs")
+        D_.call(lambda: tr.project.remove_absence_time_list())
+        steps_t = None
+        tr.absence = set()
+    if spec.get("reload_after") and tr.out.ok:
+        new, ow, orr = scen.save_load(tr.project, "mem:c07b.json", spec.get("ranks"))
+        if new is not None:
+            res.count("reloaded_logs_checked")
+            tr.project = new
+    tr.ix = D.index(tr.project)  # (objects are replaced by a reload)
     if steps_t is None and spec["cfg"].get("unit_time", 1) != 1:
         tr.absence = set()  # log index != clock value: rely on the logged ABSENCE states (zero charge) instead of the time list
     tot, n = check_logs(res, tr.project, tr.ix, tr.absence, exact, steps_t)
